@@ -11,11 +11,12 @@ Oracles: (1) gate.forward of fresh gates applied one at a time in insertion orde
 (2) independently the reference automorphism product (pcverif.circ: dense-matrix tables of the
 named gates, the rotation rule U^dag P U = i P G, embedded map tables).  Locality: tableau
 columns outside a gate's declared qubits stay bit-identical."""
+import itertools
 from .. import circ, dom
 from ..core import Leg
 
 PROP = 'C09'
-SUB9 = (0, 4, 7, 8, 11, 12, 13, 14, 15)     # sub-alphabet of the length-5 leg (thorough)
+SUB7 = (0, 7, 8, 11, 13, 14, 15)     # N=3 sub-alphabet of the length-3 (quick) and length-5 (thorough) legs
 RULE = ('all gate programs of length <= k over the fixed alphabet (H, S, CNOT both orientations incl. non-adjacent, '
         'generator gates on 1/2/3 qubits incl. a negative generator, clifford_rotation_gate from a full-width generator '
         'with an identity gap, forward-map gate on the non-contiguous qubits (0,2), backward-map-only gates) x every '
@@ -23,7 +24,7 @@ RULE = ('all gate programs of length <= k over the fixed alphabet (H, S, CNOT bo
         'forward/take/compile/copy/compose call compared with the oracle; non-trivial = program of >= 2 gates in which '
         'the order matters (reference product differs from the reversed product) or a gate slides to an earlier layer; '
         'states = distinct reference automorphisms realised by the explored programs')
-ASSUMPTIONS = ['bounded program length and N<=3 (layer packing only depends on qubit overlap, all overlap patterns of 1-, 2- and 3-qubit gates on 3 wires occur)',
+ASSUMPTIONS = ['bounded program length and N<=4 (layer packing only depends on qubit overlap; all overlap patterns of 1-, 2- and 3-qubit gates on 3 wires and two 2-qubit gates sharing a layer on 4 wires occur)',
                'generic (map / generator) gates only on ascending qubit tuples (the mask is order-blind by design); map-less random gates excluded',
                'Circuit (the class with measurements) has no copy()/compose(): those configurations exist for CliffordCircuit only',
                'compose() followed by use of a stale compiled map is documented as unsupported ("need compilation after composition") and not demanded',
@@ -74,11 +75,15 @@ def legs(tier, for_replay=False):
             bound='N=2: all %d programs of length <= %d over 12 letters x all configurations x (64-element group list + 5 states)' % (len(p2), k2)),
     ]
     if not quick:
-        import itertools
-        p5 = [[3, list(p)] for p in itertools.product(SUB9, repeat=5)]
+        p5 = [[3, list(p)] for p in itertools.product(SUB7, repeat=5)]
         out.append(Leg('programs_N3_len5', fn_programs, p5, chunk=48, src_states=len(p5), timeout=3000,
-                       bound='N=3: all %d programs of length exactly 5 over the 9-letter sub-alphabet %s (H0, S1, CNOT(2,1), CNOT(0,2), '
-                             'gen(0,1) -XZ, gen(0,1,2) YXZ, clifford_rotation_gate(XIY), fmap(0,2), bmap(1,2))' % (len(p5), SUB9)))
+                       bound='N=3: all %d programs of length exactly 5 over the 7-letter sub-alphabet %s (H0, CNOT(2,1), CNOT(0,2), '
+                             'gen(0,1) -XZ, clifford_rotation_gate(XIY), fmap(0,2), bmap(1,2))' % (len(p5), SUB7)))
+    if quick:
+        p3s = [[3, list(p)] for p in itertools.product(SUB7, repeat=3)]
+        out.append(Leg('programs_N3_len3', fn_programs, p3s, chunk=8, src_states=len(p3s),
+                       bound='N=3: all %d programs of length exactly 3 over the 7-letter sub-alphabet %s (H0, CNOT(2,1), CNOT(0,2), gen(0,1) -XZ, '
+                             'clifford_rotation_gate(XIY), fmap(0,2), bmap(1,2)); the thorough tier covers length <= 4 over all 17 letters' % (len(p3s), SUB7)))
     p4 = circ.programs('py', 4, 2 if quick else 3)
     out.append(Leg('programs_N4', fn_programs, p4, chunk=4 if quick else 16, src_states=len(p4), timeout=3000,
                    bound='N=4: all %d programs of length <= %d over 10 letters (two 2-qubit gates on interleaved wires (0,2),(1,3) can share a layer; '
@@ -94,6 +99,8 @@ def legs(tier, for_replay=False):
         circ.warmup('torch')
     t3 = circ.programs('torch', 3, 2 if quick else 3)
     t2 = circ.programs('torch', 2, 2 if quick else 3)
+    if quick:   # three-gate programs (the shortest in which layer packing can go wrong) over 4 of the 8 letters
+        t2 = t2 + [[2, list(p)] for p in itertools.product((0, 1, 2, 5), repeat=3)]
     out.append(Leg('torch_programs', fn_torch_programs, t2 + t3, chunk=2, timeout=3000,
                    bound='torchclifford: all programs of length <= %d over 8 (N=2) / 9 (N=3) letters; uncompiled / copy / composed; '
                          'compile-based configurations attempted and reported when they raise' % (2 if quick else 3)))
